@@ -5,7 +5,7 @@
 // numEndpointsEjected and the per-endpoint ejection state and to count RPC results with
 // the real incrementCounter.
 //
-// cfg  [K] or [K, sym]   endpoints are 0..K-1 (address "a<id>"); sym = 1 marks a case whose
+// cfg  [K] or [K, sym]   endpoints are 0..K-1 (endpoint id has 1 + id%3 addresses "a<id>", "a<id>_1", ...); sym = 1 marks a case whose
 //      last interval has several simultaneous outliers while max_ejection_percent binds (the
 //      outcome depends on Go's map order): the model is then compared on the first three
 //      numbers of each observation only, the per-endpoint records are judged by the clauses
@@ -151,6 +151,14 @@ func vOutlierExecIn(cfg []int64, ops [][]int64) (obs [][]int64, nontrivial bool,
 	present := map[int64]bool{}
 	tg := map[string]bool{}
 	addr := func(id int64) string { return fmt.Sprintf("a%d", id) }
+	// endpoint id has 1 + id%3 addresses (a<id>, a<id>_1, a<id>_2); its sub-channel uses the first
+	endpoint := func(id int64) resolver.Endpoint {
+		as := []resolver.Address{{Addr: addr(id)}}
+		for j := int64(1); j <= id%3; j++ {
+			as = append(as, resolver.Address{Addr: fmt.Sprintf("a%d_%d", id, j)})
+		}
+		return resolver.Endpoint{Addresses: as}
+	}
 	secs := func(t time.Time) int64 { return int64(t.Sub(start) / time.Second) }
 	deadline := func() (time.Time, bool) {
 		b.mu.Lock()
@@ -174,7 +182,7 @@ func vOutlierExecIn(cfg []int64, ops [][]int64) (obs [][]int64, nontrivial bool,
 				}
 				var eps []resolver.Endpoint
 				for _, id := range ids {
-					eps = append(eps, resolver.Endpoint{Addresses: []resolver.Address{{Addr: addr(id)}}})
+					eps = append(eps, endpoint(id))
 				}
 				for id := range present {
 					found := false
@@ -261,7 +269,7 @@ func vOutlierExecIn(cfg []int64, ops [][]int64) (obs [][]int64, nontrivial bool,
 		w := []int64{int64(b.numEndpointsEjected), nowS, 0}
 		nej := int64(0)
 		for id := int64(0); id < k; id++ {
-			epInfo, ok := b.endpoints.Get(resolver.Endpoint{Addresses: []resolver.Address{{Addr: addr(id)}}})
+			epInfo, ok := b.endpoints.Get(endpoint(id))
 			if !ok {
 				w = append(w, 0, -1, 0, -1, 0, 0)
 				prevEj[id] = -1
